@@ -118,7 +118,7 @@ func c05Concrete(v *c05Val) c05GV {
 		return c05GV{Kind: "bool", B: v.B}
 	case "arr", "obj":
 		return c05GV{Kind: v.K, Len: v.Len}
-	case "null", "unset", "fn":
+	case "null", "unset", "fn", "native":
 		return c05GV{Kind: v.K}
 	}
 	infra("C05: unknown value kind %q", v.K)
@@ -493,6 +493,8 @@ func c05Lit(v c05GV, side string) string {
 		return "/" + string(v.S) + "/"
 	case "fn":
 		return "f"
+	case "native": // a built-in function (only as the left operand of `is`)
+		return "printf"
 	}
 	infra("C05: cannot render kind %q", v.Kind)
 	return ""
@@ -539,7 +541,15 @@ func c05IsMiss(mode string) bool { return strings.HasPrefix(mode, "miss:") }
 // expression, the statement that must run first, and the member of the input
 // document it needs (`"name": value`).
 func c05Operand(v c05GV, side, mode string) (ref, pre, field string) {
-	assignable := v.Kind != "unset" && v.Kind != "fn"
+	assignable := v.Kind != "unset" && v.Kind != "fn" && v.Kind != "native"
+	if v.Kind == "native" { // other built-ins: a global function, a prototype method
+		switch mode {
+		case "var":
+			return "num", "", ""
+		case "doc":
+			return "$." + side + ".upper", "", `"` + side + `": "x"`
+		}
+	}
 	idx := map[string]string{"a": "5", "b": "7"}[side]
 	if idx == "" {
 		idx = "4"
@@ -800,7 +810,24 @@ func c05RandVal(rng *rand.Rand, forPattern bool) c05GV {
 }
 
 var c05AllBin = []string{"+", "-", "*", "/", "%", "==", "!=", "<", "<=", ">", ">=", "&&", "||", "~", "!~"}
-var c05IsNames = []string{"number", "string", "bool", "array", "object", "regex", "function", "null", "unknown", "foo"}
+var c05IsNames = []string{"number", "string", "bool", "array", "object", "regex", "function", "null", "unknown", "foo",
+	"nil", "nativefunction", "nativefn", "Null", "NULL", "str", "int", "float", "boolean", "list", "dict", "undefined", "unset", "none", "any",
+	"String", "ARRAY", "Function", "nul", "numbers", "type", "true_", "x"}
+
+// c05Is: `v is name` per DESIGN.md 3.6 (port of JqValue.IsOp).
+func c05Is(v c05GV, name string) c05Out {
+	documented := false
+	for _, n := range c05TypeName {
+		documented = documented || n == name
+	}
+	switch {
+	case !documented:
+		return c05B(false)
+	case v.Kind == "native":
+		return c05Out{Open: true}
+	}
+	return c05B(c05TypeName[v.Kind] == name)
+}
 
 // ---------------------------------------------------------------------------
 
@@ -814,7 +841,7 @@ var c05IsNames = []string{"number", "string", "bool", "array", "object", "regex"
 func checkC05(c *Ctx) {
 	c.Assume("`!=`, `<=`, `>=` with an unset operand are not fixed by the statement: not compared")
 	c.Assume("non-finite results (overflow of * / + -) are not compared; no operand is NaN or infinite")
-	c.Assume("`is` applied to built-in functions is not compared; an identifier other than the nine type names is only checked to give false")
+	c.Assume("`is` applied to a built-in function with one of the nine documented type names is not compared; with any other identifier it must give false like for every other operand")
 	c.Assume("error messages and positions are not compared, only the outcome kind (value printed / runtime error)")
 	c.Assume("the RE2 engine is outside the model: the specification gives each of its 13 patterns a hand-written meaning (cross-checked against Go's regexp by the harness); seeded patterns use Go's regexp as the reference")
 	c.Assume("numeric strings: the decimal grammar [sign] digits [. digits] [e [sign] digits]; Go's hex, inf/nan and underscore spellings and out-of-range magnitudes are outside the model")
@@ -993,10 +1020,14 @@ func checkC05(c *Ctx) {
 				}
 			}
 		case "is":
-			if (c05TypeName[l.Kind] == v.Name) != exp.V.B {
+			if !c05SameOut(c05Is(l, v.Name), exp) {
 				infra("C05: Go port disagrees with the specification at %s is %s", c05Lit(l, "a"), v.Name)
 			}
 			portChecked++
+			if exp.Open {
+				count("cells not fixed by the statement")
+				return
+			}
 			for _, mode := range append([]string{"lit", "var", "doc"}, c05MissModes...) {
 				cs, ok := c05IsCase(l, v.Name, mode, exp)
 				if ok {
@@ -1178,8 +1209,19 @@ func checkC05(c *Ctx) {
 			if l.Kind == "str" && !c05SafeStr(l.S) {
 				continue
 			}
+			if rng.Intn(12) == 0 {
+				l = c05GV{Kind: "native"}
+			}
 			name := c05IsNames[rng.Intn(len(c05IsNames))]
-			cs, ok := c05IsCase(l, name, []string{"lit", "var", "doc"}[rng.Intn(3)], c05B(c05TypeName[l.Kind] == name))
+			iexp := c05Is(l, name)
+			if iexp.Open {
+				continue
+			}
+			imode := []string{"lit", "var", "doc"}[rng.Intn(3)]
+			if l.Kind == "null" && rng.Intn(2) == 0 {
+				imode = c05MissModes[rng.Intn(len(c05MissModes))]
+			}
+			cs, ok := c05IsCase(l, name, imode, iexp)
 			if !ok {
 				continue
 			}
@@ -1197,7 +1239,7 @@ func checkC05(c *Ctx) {
 	c.Set("exhaustive", true)
 	c.Set("rule", "TLC enumerates every binary operator x every ordered pair of a 37-value universe (13 numbers incl. -0, 2^53, 2^70, 2^-20; 13 strings; "+
 		"both booleans, null, unset, [] [1] {} {a:1}, two regexes, a function), ~ and !~ additionally against 13 patterns as strings and regex literals, "+
-		"every unary operator, ++/-- prefix and postfix, `is` with every type name; each cell is replayed with the operands as literals, variables, "+
+		"every unary operator, ++/-- prefix and postfix, `is` with every type name and 27 identifiers that are not type names (internal tag names, other languages' names, other letter case) on every operand kind and on built-in functions; each cell is replayed with the operands as literals, variables, "+
 		"document fields, one shared variable (diagonal) and behind marker functions; a null operand additionally as a missing numeric member (index past the end of a document / variable array, absent numeric key of an object); "+
 		"per operator and left operand, one ~ / !~ site evaluated 6-9 times in one run with different patterns (parameter, array element, reassigned variable; strings and regex values; an invalid pattern last); a case is non-trivial unless both operands are small positive integers; distinct by program + document")
 	c.Set("checker_cmd", "tlc MC_Ops (INVARIANT Laws, Vec); replay through lang.EvalProgram in worker subprocesses")
